@@ -131,7 +131,7 @@ func cmdVerify(args []string) {
 			bad++
 			continue
 		}
-		vs := solveAll(res.Ctx, res.Ctx.obls, dir, *timeout, *workers, 1)
+		vs := solveAll(res.Ctx, res.Ctx.obls, dir, funcTimeout(eng, k, *timeout), *workers, 1)
 		ok := 0
 		for _, v := range vs {
 			good := verdictGood(v)
